@@ -111,9 +111,9 @@ func renderSeqReal(files map[string]string, at [][3]any) (msgs []string, panicke
 var excerptRe = regexp.MustCompile(`^( *)(\d+) \| (.*)$`)
 
 type excerpt struct {
-	num   int
-	text  string
-	caret string // text after " | " on the caret line, "" if none
+	num      int
+	text     string
+	caret    string // text after " | " on the caret line, "" if none
 	hasCaret bool
 }
 
